@@ -3,7 +3,8 @@ C04, entries the loader cannot expose: a regular file at or above MaxFileBytes (
 symbolic link pointing out of the root.  The tar entry is still there: applying the layer REPLACES whatever older
 layers have at its path ("later entries replace earlier ones").  The view cannot show the new object, and it must
 not show the old one either: the path is absent.  The specification therefore reads such an entry as a whiteout
-of its path (`specEffective`), where the loader's model drops it (`effective`, Model/OverlayImage.lean).
+of its path (`specEffective`) — and since fix <P3> so does the loader (`effective`, Model/OverlayImage.lean:
+`specEffective_eq`).
 
 The two readings give the same views exactly when no rejected entry has anything older, or of the same archive, at
 or beneath its path (`rejectedShadows` = false): then the extra whiteouts delete nothing.  Otherwise the loader shows
@@ -17,11 +18,20 @@ namespace Scalibr.Overlay
 def specEntry (pe : PEntry) : Option Entry :=
   match pe.act with
   | .accept => some pe.e
-  | .big => some ⟨pe.e.p, .file, true, 0, 0, 0, []⟩
-  | .badlink => some ⟨pe.e.p, .file, true, 0, 0, 0, []⟩
+  | .big => some ⟨pe.e.p, .link, true, pe.e.mode, 0, 0, []⟩
+  | .badlink => some ⟨pe.e.p, .link, true, pe.e.mode, 0, 0, []⟩
   | _ => none
 
 def specEffective (l : List PEntry) : Layer := l.filterMap specEntry
+
+/-- since fix <P3> the loader leaves the same whiteout: the two readings are one -/
+theorem specEffective_eq (l : List PEntry) : specEffective l = effective l := by
+  unfold specEffective effective
+  have : specEntry = PEntry.node? := by
+    funext pe
+    unfold specEntry PEntry.node?
+    cases pe.act <;> rfl
+  rw [this]
 
 def PEntry.rejected (pe : PEntry) : Bool := pe.act = .big || pe.act = .badlink
 
